@@ -308,6 +308,29 @@ func (c *Ctx) Eq(a, b *Term) *Term {
 			return c.Not(a)
 		}
 	}
+	// ite trees over constants: decide by the sets of possible values
+	if a.Op == "ite" || b.Op == "ite" {
+		la, oka := constLeaves(a, 0)
+		lb, okb := constLeaves(b, 0)
+		if oka && okb {
+			common := false
+			for v := range la {
+				if lb[v] {
+					common = true
+				}
+			}
+			if !common {
+				return c.False
+			}
+			if b.Const && a.Op == "ite" {
+				// push the comparison into the ite
+				return c.Ite(a.Args[0], c.Eq(a.Args[1], b), c.Eq(a.Args[2], b))
+			}
+			if a.Const && b.Op == "ite" {
+				return c.Ite(b.Args[0], c.Eq(b.Args[1], a), c.Eq(b.Args[2], a))
+			}
+		}
+	}
 	if a.Sort.K == SBV {
 		ba, oa := linear(a)
 		bb, ob := linear(b)
@@ -319,6 +342,28 @@ func (c *Ctx) Eq(a, b *Term) *Term {
 		a, b = b, a
 	}
 	return c.mk(&Term{Op: "=", Sort: BoolSort, Args: []*Term{a, b}})
+}
+
+// constLeaves returns the set of constant values an ite tree can take (ok=false if a leaf is not constant).
+func constLeaves(t *Term, depth int) (map[uint64]bool, bool) {
+	if t.Const {
+		return map[uint64]bool{t.U: true}, true
+	}
+	if t.Op != "ite" || depth > 6 {
+		return nil, false
+	}
+	a, ok := constLeaves(t.Args[1], depth+1)
+	if !ok {
+		return nil, false
+	}
+	b, ok := constLeaves(t.Args[2], depth+1)
+	if !ok {
+		return nil, false
+	}
+	for k := range b {
+		a[k] = true
+	}
+	return a, true
 }
 
 // ---- bit-vectors ----
